@@ -213,23 +213,22 @@ Qed.
 
 (* ================================================================ the rows in a slice *)
 Lemma apply_slice_minor_lt m ud imax sl :
-  Forall (fun r => r < imax) (idx m) ->
-  match sl with Some s => True | None => True end ->
+  (sl = None -> Forall (fun r => r < imax) (idx m)) ->
   Forall (fun e => e_minor e < n_out_of imax sl) (apply_slice sl (all_entries m ud)).
 Proof.
-  intros HF _. apply Forall_forall. intros e He. destruct sl as [[lo hi]|]; cbn in *.
+  intros HF. apply Forall_forall. intros e He. destruct sl as [[lo hi]|]; cbn in *.
   - apply in_map_iff in He. destruct He as (e0 & <- & He0). apply filter_In in He0.
     destruct He0 as [_ Hs]. unfold in_slice in Hs. cbn in Hs. apply andb_true_iff in Hs.
     destruct Hs as [H1 H2]. apply Nat.leb_le in H1. apply Nat.ltb_lt in H2. cbn. lia.
   - unfold all_entries in He. apply in_map_iff in He. destruct He as (k & <- & Hk).
-    apply in_seq in Hk. cbn. rewrite Forall_forall in HF. apply HF. apply nth_In. lia.
+    apply in_seq in Hk. cbn. specialize (HF eq_refl). rewrite Forall_forall in HF. apply HF. apply nth_In. lia.
 Qed.
 
 (* ================================================================ pointer-array clauses *)
 (* the pointer array of the specification starts at 0, is monotone, has one entry per
    output row plus one and ends at the number of stored entries of the slice *)
 Theorem spec_ptr_clauses m ud imax sl :
-  Forall (fun r => r < imax) (idx m) ->
+  (sl = None -> Forall (fun r => r < imax) (idx m)) ->
   let out := transpose_spec m ud imax sl in
   let es := apply_slice sl (all_entries m ud) in
   hd 1 (ptr out) = 0 /\ mono (ptr out) /\ length (ptr out) = S (n_out_of imax sl) /\
@@ -240,7 +239,7 @@ Proof.
   set (es := apply_slice sl (all_entries m ud)). set (n := n_out_of imax sl).
   fold (cnts es n).
   assert (HT : off es n = length es).
-  { apply off_total. apply apply_slice_minor_lt; [exact HF | destruct sl; exact Logic.I]. }
+  { apply off_total. apply apply_slice_minor_lt. exact HF. }
   split; [reflexivity|]. split; [apply cumsum_mono|]. split; [apply iptr_length|].
   rewrite !map_length, spec_entries_off. split; [|split; [exact HT|]].
   - rewrite cumsum_last. reflexivity.
